@@ -374,11 +374,13 @@ func runC05(t failer, c c05Case) {
 		}
 		return resp, err
 	}
+	var kept []*tq.Packet
 	for i, p := range c.Pkts {
 		resp, err := send()
 		if err != nil {
 			fail("packet-refused", "Send %d returned error %v for a complete well-formed packet", i, err)
 		}
+		kept = append(kept, resp)
 		want := p.header()
 		if want.Seq == 2 {
 			want.Flags |= model.FlagSingleConnect
@@ -388,6 +390,12 @@ func runC05(t failer, c c05Case) {
 		}
 		if !bytes.Equal(resp.Body, clears[i]) {
 			fail("body-differs", "Send %d: body differs from the cleartext the peer wrote (len %d vs %d, first difference at %d)", i, len(resp.Body), len(clears[i]), firstDiff(resp.Body, clears[i]))
+		}
+	}
+	// a packet handed to the caller stays what it was, whatever is received afterwards
+	for i, k := range kept {
+		if !bytes.Equal(k.Body, clears[i]) {
+			fail("returned-packet-changed", "the packet returned by Send %d no longer holds its cleartext after later packets were received (first difference at %d)", i, firstDiff(k.Body, clears[i]))
 		}
 	}
 	// whatever follows (nothing, a partial packet, an oversize header) must be an error, not a packet
